@@ -10,6 +10,16 @@ CAUGHT = {
  "C06a": "C06 `TV_Scalars` (rebased)", "C07a": "C07 `TV_Budget` (rebased)", "C08a": "C08 `TV_Bounds`",
  "C09a": "C09 `TV_ReaderInput`", "C10a": "C10 `TV_ReaderInput`", "C11a": "C11 `TV_Stream`", "C12a": "C12 `TV_Quoting`",
  "C13a": "C13 `TV_Emitter`", "C14a": "C14 `TV_AnchorStore` (rebased)", "C15a": "C15 `TV_AnchorStore` histories, inner-call oracle (rebased)",
+ "C01b": "C01: no return within the limit (`timeout`) for `!!null x` into unit targets (unit / Vec<unit struct> targets and tag tokens were added for it)",
+ "C02b": "C02 `TV_LiveEvents` on stale-alias streams (added for it) and C11 `TV_Stream` (nested-anchor definition shape)",
+ "C03b": "C03 `TV_MapAccess`", "C04b": "C04 `TV_MapAccess` (plain vs quoted spelling of a repeated key)", "C05b": "C05 `TV_TypedCursor` (surplus collection elements)",
+ "C06b": "C06 `TV_Scalars` (43-digit octal)", "C07b": "C07 `TV_Budget` and `TR_Budget` (key / value phase after a complex key)",
+ "C08b": "C08 `TV_Bounds` and `TR_LiveEvents` under tight limits (rebased)", "C09b": "C09 `TV_ReaderInput` (error position differs between entry points)",
+ "C10b": "C10 `TV_ReaderInput` (EOF inside a code point)", "C11b": "C11 `TV_Stream`", "C12b": "C12 `TV_Quoting` (letter-case variants of null, added for it)",
+ "C13b": "C13 `TV_Emitter`", "C14b": "C14 `TV_AnchorStore` on nested DAGs (added for it)", "C15b": "C15 `TV_AnchorStore`: nested call not transparent (ArcRecursive outer document, added for it)",
+ "C16b": "C16 `TV_Locations` (`referenced-names-wrong-site`)", "C17b": "C17 `TV_Snippet` (`ring` family with the failing line inside the retained tail)",
+ "C18b": "C18 `TV_PathMap` (use and definition site swapped for merged fields)", "C19b": "C19 `TV_Robotics` (`wrong-value` on the unit-form family, added for it)",
+ "C20b": "C20 `TV_Emitter` (block-text pool for Lit / Fold wrappers, added for it)",
  "C16a": "C16 `TV_Locations` (`merged-entry-not-attributed-to-its-merge`)", "C17a": "C17 `TV_Snippet` (`ring` family)",
  "C18a": "C18 `TV_PathMap` through the Display channels", "C19a": "C19 `TV_Robotics` (`wrong-value`)", "C20a": "C20 `TV_Emitter`",
 }
